@@ -19,7 +19,9 @@ TRUSTED_BASE = [
     "Python harness incl. the reference packet builders of harness/stack.py",
     "translator tools/pyz.py + tools/gen_src_geonet.py (Python ast -> Gallina, fail-closed): the TST operators (__gt__, __ge__, "
     "__lt__, __le__, __eq__, __sub__, __add__, encode, decode) are regenerated from the source on every run (Gen/SrcGeonet.v) "
-    "and proved equal to the model's tst_gt / tst_sub for all arguments (C08_source_* theorems)",
+    "and proved equal to the model's tst_gt / tst_sub for all arguments; LocationTableEntry.update_position_vector (state-passing: "
+    "the two attributes it assigns, the lock context transparent) and LocationTable._is_current (called with an explicit time) are "
+    "regenerated likewise and proved equal to the model's update_pv / keep (C08_source_* theorems)",
 ]
 ASSUMPTIONS = [
     "tie by execution: seeded histories of beacons, SHB, TSB, GBC, GAC, GUC, LS packets from 2-4 sources with "
